@@ -128,6 +128,10 @@ def run(rep, tier):
                     if len(set(json.dumps(x if x[0] == "ok" else [x[0], ""]) for x in ds)) > 1:
                         step = si
                         break
+                elif kind == "max":
+                    if any(c.get("all", -1) >= 0 and c["decl"] > c["all"] for c in cs):
+                        step = si
+                        break
                 elif any((not c["canary"]) or "Attempted to take" in c["panic"] or "scratch" in c["panic"].lower() for c in cs):
                     step = si
                     break
